@@ -93,6 +93,12 @@ theorem static_repeatable (dicts : List (UDict K)) (c : CondState K) (hs : c.sta
     simp only
     cases hl : smLoss c.spec c.space fresh₁ <;> simp [hl]
 
+/-- the USER may change a dict of theirs at any time (add, remove, replace entries): an evaluation of a condition that
+    was constructed before does not look at the user's dicts at all — it keeps behaving as constructed -/
+theorem eval_ignores_user_dicts (dicts dicts' : List (UDict K)) (st : Option (CondState K)) (cid : Nat)
+    (fresh : List (List K)) :
+    stepCondNew dicts st (.eval cid fresh) = stepCondNew dicts' st (.eval cid fresh) := rfl
+
 end isolation
 
 /-! ## the code before the repair violated the property -/
